@@ -512,6 +512,8 @@ static void deadlock(void)
 	rt_finish(RS_VIOLATION, "deadlock", msg);
 }
 
+static int next_deadline(uint64_t *out);
+
 static void wake_sleepers(void)
 {
 	int i;
@@ -522,6 +524,7 @@ static void wake_sleepers(void)
 			t->has_deadline = 0;
 			t->timed_out = 1;
 			t->state = T_RUNNABLE;
+			G.steps_at_last_wake = G.steps;
 		}
 	}
 }
@@ -580,6 +583,19 @@ static void step_common(int kind)
 		quiet_enter();
 	}
 	wake_sleepers();
+	/*
+	 * A thread that never blocks (e.g. a polling or spinning helper) must not
+	 * stretch every sleep to millions of steps: no deadline in liburcu reads a
+	 * clock, so when nobody has been woken for a long while, let time pass.
+	 */
+	if (G.steps - G.steps_at_last_wake > 3000) {
+		uint64_t dl;
+		G.steps_at_last_wake = G.steps;
+		if (next_deadline(&dl) && dl > G.now) {
+			G.now = dl;
+			wake_sleepers();
+		}
+	}
 }
 
 /* default policy: run to block; RELAX/PAUSE rotate; lazy drains */
